@@ -32,6 +32,7 @@ type Contract struct {
 	Assigns   []string
 	HasAssign bool
 	Loops     map[int][]*Clause
+	Paginates map[int][]*Clause // invariants of the callback loop of the N-th query.Paginate call (source order)
 	Covers    []*Clause // exit-state conditions that must be satisfiable (vacuity guards written by the contract author)
 	Inline    bool
 	DynInline bool // inline at call sites where an interface argument has a statically known dynamic type
@@ -98,7 +99,7 @@ func NewSpecDB() *SpecDB {
 }
 
 var clauseKeywords = map[string]bool{"import": true, "ghost": true, "spec": true, "def": true, "axiom": true, "lemma": true,
-	"func": true, "extern": true, "requires": true, "ensures": true, "cover": true, "assigns": true, "loop": true, "inline": true,
+	"func": true, "extern": true, "requires": true, "ensures": true, "cover": true, "assigns": true, "loop": true, "paginate": true, "inline": true,
 	"noinline": true, "dyninline": true, "trusted": true, "maypanic": true, "params": true, "results": true, "havoc": true, "det": true, "fresh": true, "uses": true, "lemmauses": true}
 
 type rawLine struct {
@@ -401,6 +402,24 @@ func (db *SpecDB) stmt(path, pkgPath string, st rawLine, cur **Contract) error {
 			return err
 		}
 		(*cur).Loops[n] = append((*cur).Loops[n], cl)
+	case "paginate":
+		f := strings.Fields(rest)
+		if len(f) < 3 || f[1] != "invariant" {
+			return fmt.Errorf("paginate N invariant expr")
+		}
+		n, err := strconv.Atoi(f[0])
+		if err != nil {
+			return err
+		}
+		idx := strings.Index(rest, "invariant")
+		cl, err := mkClause(rest[idx+len("invariant"):])
+		if err != nil {
+			return err
+		}
+		if (*cur).Paginates == nil {
+			(*cur).Paginates = map[int][]*Clause{}
+		}
+		(*cur).Paginates[n] = append((*cur).Paginates[n], cl)
 	case "inline":
 		(*cur).Inline = true
 	case "dyninline":
